@@ -60,6 +60,20 @@ macro_rules! with_wide_n {
     };
 }
 
+/// kernel lengths beyond any small block size
+macro_rules! with_mid_n {
+    ($n:expr, $N:ident => $body:expr) => {
+        match $n {
+            17 => { const $N: usize = 17; $body }
+            20 => { const $N: usize = 20; $body }
+            24 => { const $N: usize = 24; $body }
+            33 => { const $N: usize = 33; $body }
+            40 => { const $N: usize = 40; $body }
+            n => panic!("harness: kernel length {} is not instantiated", n),
+        }
+    };
+}
+
 pub type KV = HashMap<String, String>;
 
 pub fn parse_kv(toks: &[&str]) -> KV {
@@ -271,6 +285,11 @@ macro_rules! small_int_fk {
 }
 small_int_fk!(u8);
 small_int_fk!(i8);
+// ... and at floats that keep the sign of a zero on the protocol: filters that select or hand on samples
+fk!([const N: usize] Max<Fz, N>, Fz => Fz {});
+fk!([const N: usize] Min<Fz, N>, Fz => Fz {});
+fk!([const N: usize] Bounds<Fz, N>, Fz => (Fz, Fz) {});
+fk!([const N: usize] Delay<Fz, N>, Fz => Fz {});
 
 macro_rules! conv_fk {
     ($t:ty) => {
@@ -819,6 +838,10 @@ fn build_inner(kind: &str, kv: &KV, wrap: Option<&str>) -> Box<dyn Inst> {
         ("max", "i8") => with_n!(kv_n(kv, "N"), N => finish(Max::<i8, N>::default(), wrap)),
         ("min", "i8") => with_n!(kv_n(kv, "N"), N => finish(Min::<i8, N>::default(), wrap)),
         ("bounds", "i8") => with_n!(kv_n(kv, "N"), N => finish(Bounds::<i8, N>::default(), wrap)),
+        ("max", "fz") => with_n!(kv_n(kv, "N"), N => finish(Max::<Fz, N>::default(), wrap)),
+        ("min", "fz") => with_n!(kv_n(kv, "N"), N => finish(Min::<Fz, N>::default(), wrap)),
+        ("bounds", "fz") => with_n!(kv_n(kv, "N"), N => finish(Bounds::<Fz, N>::default(), wrap)),
+        ("delay", "fz") => with_n!(kv_n(kv, "N"), N => finish(Delay::<Fz, N>::default(), wrap)),
         ("median", "fz") => with_n!(kv_n(kv, "N"), N => finish(Median::<Fz, N>::default(), wrap)),
         ("mean", "q") => with_n!(kv_n(kv, "N"), N => finish_q(Mean::<Q, N>::default(), wrap)),
         ("mean", "i64") => with_n!(kv_n(kv, "N"), N => finish(Mean::<i64, N>::default(), wrap)),
@@ -843,6 +866,14 @@ fn build_inner(kind: &str, kv: &KV, wrap: Option<&str>) -> Box<dyn Inst> {
         ("max", _) => with_n!(kv_n(kv, "N"), N => finish_q(Max::<Q, N>::default(), wrap)),
         ("min", _) => with_n!(kv_n(kv, "N"), N => finish_q(Min::<Q, N>::default(), wrap)),
         ("bounds", _) => with_n!(kv_n(kv, "N"), N => finish(Bounds::<Q, N>::default(), wrap)),
+        ("convolve", _) if kv_qs(kv, "c").len() > 16 => {
+            let c = kv_qs(kv, "c");
+            with_mid_n!(c.len(), N => finish_q(Convolve::<Q, N>::with_config(ConvolveConfig { coefficients: arr(c) }), wrap))
+        }
+        ("convolve_norm", _) if kv_qs(kv, "c").len() > 16 => {
+            let c = kv_qs(kv, "c");
+            with_mid_n!(c.len(), N => finish_q(Convolve::<Q, N>::normalized(ConvolveConfig { coefficients: arr(c) }), wrap))
+        }
         ("convolve", _) => {
             let c = kv_qs(kv, "c");
             with_n!(c.len(), N => finish_q(Convolve::<Q, N>::with_config(ConvolveConfig { coefficients: arr(c) }), wrap))
